@@ -244,6 +244,10 @@ func (c *FnCtx) Discharge(sc *SolverCfg) {
 	var order []string
 	for _, o := range c.Obls {
 		g := o.Kind + ":" + o.Label
+		if o.Kind == "canary" {
+			// one vacuity query per return statement: some path must reach each of them
+			g = fmt.Sprintf("canary:%s:%d", o.Pos.Filename, o.Pos.Line)
+		}
 		if o.Quick {
 			g = "quick!" + o.Name + "@" + o.Path
 		}
@@ -330,6 +334,65 @@ func (c *FnCtx) Discharge(sc *SolverCfg) {
 			}
 		} else {
 			os.Remove(f)
+		}
+	}
+	// cover check: every call site of the function must lie on a path whose final path condition
+	// is not refutable (a contradictory callee contract or ghost update would otherwise make the
+	// rest of that path vacuously "proved"). Sites reached by the same set of exits share a query.
+	{
+		var cans []*Obligation
+		for _, o := range c.Obls {
+			if o.Kind == "canary" {
+				cans = append(cans, o)
+			}
+		}
+		bySite := map[string][]int{}
+		for i, o := range cans {
+			for _, s := range o.Sites {
+				bySite[s] = append(bySite[s], i)
+			}
+		}
+		byKey := map[string][]string{}
+		keyObs := map[string][]*Obligation{}
+		for s, idx := range bySite {
+			if len(idx) == len(cans) {
+				continue // on every exit path: covered by the per-return queries
+			}
+			k := fmt.Sprint(idx)
+			byKey[k] = append(byKey[k], s)
+			if keyObs[k] == nil {
+				for _, i := range idx {
+					keyObs[k] = append(keyObs[k], cans[i])
+				}
+			}
+		}
+		var mu sync.Mutex
+		for k, obs := range keyObs {
+			wg.Add(1)
+			go func(k string, obs []*Obligation) {
+				defer wg.Done()
+				f := nextFile("cover")
+				os.WriteFile(f, []byte(c.smtFor(obs, false)), 0o644)
+				short := *sc
+				if short.TimeoutS > 2 {
+					short.TimeoutS = 2
+				}
+				r := short.race(f)
+				if os.Getenv("GOVC_KEEP") == "" || r.verdict != "unsat" {
+					os.Remove(f)
+				}
+				if r.verdict == "unsat" {
+					mu.Lock()
+					for _, site := range byKey[k] {
+						if c.C != nil && c.C.Dead[site] {
+							c.note("dead code acknowledged in the contract: no path continues after " + site)
+							continue
+						}
+						c.VacuousSites = append(c.VacuousSites, site)
+					}
+					mu.Unlock()
+				}
+			}(k, obs)
 		}
 	}
 	for _, g := range order {
